@@ -103,6 +103,10 @@ type gen struct {
 	// session ids are chosen by the server (Session.Apply generates a fresh UUID per create): a create never
 	// reuses an id, everything else refers to ids created earlier
 	sessionsMade int
+	// the real store of the running history (nil = blind generation only): the state-aware commands of
+	// xexisting.go read it to aim at rows that exist
+	store     func() *state.Store
+	clusterID string
 }
 
 func (g *gen) freshSessionID() string {
@@ -550,7 +554,12 @@ func (g *gen) caRoot(id string, active bool) *structs.CARoot {
 
 func (g *gen) caConfig() *structs.CAConfiguration {
 	r := g.r
-	c := &structs.CAConfiguration{ClusterID: g.pick([]string{"cluster-1", "cluster-2"}), Provider: g.pick([]string{"consul", "vault"}),
+	// the cluster id (trust domain) is fixed for the life of a cluster: CAManager.UpdateConfiguration overwrites
+	// whatever the request carries with the stored one ("Don't allow users to change the ClusterID")
+	if g.clusterID == "" {
+		g.clusterID = g.pick([]string{"cluster-1", "cluster-2"})
+	}
+	c := &structs.CAConfiguration{ClusterID: g.clusterID, Provider: g.pick([]string{"consul", "vault"}),
 		Config: map[string]interface{}{"LeafCertTTL": "72h", "RotationPeriod": g.pick([]string{"2160h", "100h"})}}
 	if r.Chance(30) {
 		c.Config["IntermediateCertTTL"] = "8760h"
